@@ -15,6 +15,8 @@ CHECKS = {
          'bounded exhaustive enumeration of forests against a reference derivation enumerator and an independent cycle finder'),
  'C03': ('exploration', '4 C03', 'Every grammar of the SHAPE families (EBNF operators x helper spellings a/_a/?a/!a/template x aliases x kept/filtered/anonymous tokens, incl. a literal that coincides with a named terminal) x keep_all_tokens x maybe_placeholders x 6 engine/lexer pairs x every input up to the bound: the returned tree must be the documented shaping of a reference derivation; unique derivation = all engines agree.',
          'bounded exhaustive enumeration of (grammar, options, engine, input) against reference derivations + a shaping function written from the documentation'),
+ 'C02': ('model_checking', '4 C02', 'For every reduced grammar of the bounded BNF families x rule priorities: GrammarError iff the reference automaton (canonical LR(1) merged by core) has an unresolved reduce/reduce conflict; every state of the real parse table is compared row by row with the reference; the real pushdown automaton is walked breadth-first over all token strings up to the bound (choices/accepts/feed/feed_eof vs reference simulator, acceptance vs an independent CFG recogniser); parse() under both lexers agrees.',
+         'explicit-state search of the real LALR pushdown automaton against a reference automaton + exhaustive table comparison'),
 }
 NOT_YET = {}
 def main():
